@@ -31,6 +31,11 @@ func VH_c02_update() {
 	ex := l.New()
 	l.fillList("ex", ex, N, l.Fields)
 	l.assumeInvariant(ex)
+	// item types that keep optional data in a slice-typed field: the first stored item carries it
+	// (one element), the others do not; whether the first update item mentions it is symbolic
+	if l.SetSlice != nil && l.Len(ex) > 0 {
+		l.SetSlice(l.At(ex, 0), 1)
+	}
 
 	upd := l.New()
 	var fp, fd *FilterType
@@ -97,6 +102,10 @@ func VH_c02_update() {
 		for i := 0; i < l.Len(upd); i++ {
 			verifrt.Assume(l.hasAllKeys(l.At(upd, i)))
 		}
+	}
+
+	if l.SetSlice != nil && l.Len(upd) > 0 && verifrt.Concrete(verifrt.Bool("upd[0]."+l.SliceField+"?")) {
+		l.SetSlice(l.At(upd, 0), 2)
 	}
 
 	// duplicate identifiers inside one update list are a scenario of their own
